@@ -354,6 +354,15 @@ class Runner:
             self._replay(h, lane, crate, env, out)
 
     def _replay(self, h, lane, crate, env, out):
+        # 1st attempt: sliced formula (cheap). Slicing may drop kani::any() calls that the failing check does
+        # not depend on; the generated value list is then misaligned and the native run stops inside kani's
+        # playback runtime ("det vals"). In that case regenerate WITHOUT slicing (kani's default, expensive).
+        self._replay_once(h, lane, crate, env, out, sliced=True)
+        res = out.get("replay", {}).get("results", {})
+        if out.get("replay", {}).get("status") != "reproduced" and any(v == "playback-misaligned" for v in res.values()):
+            self._replay_once(h, lane, crate, env, out, sliced=False)
+
+    def _replay_once(self, h, lane, crate, env, out, sliced):
         name = h["name"]
         if h["replay"] == "none":
             out["replay"] = {"status": "not-replayable", "why": "harness marked replay=none"}
@@ -363,8 +372,8 @@ class Runner:
         # just solved (measured 2.6M -> 23M variables). We put `--slice-formula` back: values outside the
         # failing check's cone of influence may then be arbitrary, which is fine because the counterexample
         # only counts if it REPRODUCES natively below.
-        cmd = self.kani_cmd(h, lane, ["-Z", "concrete-playback", "--concrete-playback=print"]) + ["--slice-formula"]
-        rc, to, wall = run_cmd(cmd, crate, logpath, max(1800, h["timeout"] * 2), max(40, h["mem"]), env)
+        cmd = self.kani_cmd(h, lane, ["-Z", "concrete-playback", "--concrete-playback=print"]) + (["--slice-formula"] if sliced else [])
+        rc, to, wall = run_cmd(cmd, crate, logpath, max(1800, h["timeout"] * 2), max(40, h["mem"]) if sliced else 52, env)
         text = open(logpath, errors="replace").read()
         blocks = re.findall(r"```\s*(?:rust)?\n(.*?)```", text, re.S)
         # kani prints one test per failed check AND per satisfied cover: keep the one for a failing check
@@ -418,7 +427,10 @@ class Runner:
                         hit = True
                     elif "unwinding assertion" in fc["desc"] and re.search(r"memory allocation of \d+ bytes failed|capacity overflow", ptxt):
                         hit = True
-                results[tag] = "reproduced" if hit else "other-panic"
+                if not hit and "concrete_playback.rs" in ptxt and re.search(r"det vals|Not enough", ptxt):
+                    results[tag] = "playback-misaligned"
+                else:
+                    results[tag] = "reproduced" if hit else "other-panic"
             elif re.search(r"test result: ok. 1 passed", ptxt):
                 results[tag] = "passed"
             elif "error: could not compile" in ptxt or "error[E" in ptxt:
